@@ -175,6 +175,9 @@ class TickerSpec(SeqSpec):
             return [["new", d, j], ["reset", 0, bad[0], bad[1]], ["pause", d], ["stop", 0], ["pause", 3 * d]]
         if kind == "huge":
             return [["new", HUGE_D, HUGE_J]]
+        if kind == "huge-wrap":
+            # documented arguments (0 <= jitter < d) for which d + offset can exceed the int64 range
+            return [["new", MAX_I64, 1 << 61], ["pause", 20 * MS], ["stop", 0], ["pause", 2 * MS]]
         if kind == "basic":
             return [["new", d, j], ["pause", rng.randrange(3, 7) * d], ["stop", 0], ["pause", 4 * d]]
         if kind == "stop-race":
@@ -241,6 +244,8 @@ class TickerSpec(SeqSpec):
             for j in self.jitters(d):
                 cases.append({"component": "ticker", "ops": [["new", d, j], ["pause", 4 * d], ["reset", 0, d, j], ["pause", 3 * d], ["stop", 0], ["pause", 4 * d]]})
         cases.append({"component": "ticker", "ops": self.gen_one(rng, "huge")})
+        for _ in range(40):
+            cases.append({"component": "ticker", "ops": self.gen_one(rng, "huge-wrap")})
         return cases
 
     # ---- helpers on the recorded history
@@ -339,7 +344,8 @@ class TickerSpec(SeqSpec):
             need = min(c["d"] - c["j"] for c in cand)
             if b - a < need:
                 c = min(cand, key=lambda c: c["d"] - c["j"])
-                fails.append(("ticks-too-close", "two consecutive ticks carry times %d ns apart, less than d - jitter = %d - %d" % (b - a, c["d"], c["j"])))
+                sig = "ticks-too-close:d+jitter-overflows-int64" if all(x["d"] + x["j"] > MAX_I64 for x in cand) else "ticks-too-close"
+                fails.append((sig, "two consecutive ticks carry times %d ns apart, less than d - jitter = %d - %d" % (b - a, c["d"], c["j"])))
                 break
         # 3. no tick after Stop has returned (unless a New/Reset may have run in between)
         stops = [c for c in calls if c["op"] == "stop" and c["res"] == "ok"]
